@@ -208,7 +208,7 @@ impl<'a> Gen<'a> {
         if cands.is_empty() { return; }
         let fi = *self.rng.pick(&cands);
         let f = &data[fi];
-        let code = format!("{{ let id = {a}.{f}().id(); CLONE_BOMB.with(|b| *b.borrow_mut() = Some(id)); let res = std::panic::catch_unwind(std::panic::AssertUnwindSafe(|| {{ let c = {a}.clone(); c }})); CLONE_BOMB.with(|b| *b.borrow_mut() = None); match res {{ Ok(c) => {{ mute(true); drop(c); mute(false); flush(out, \"no-panic\".into()); }} Err(_) => flush(out, \"panic\".into()) }} }}", a = self.acc(r), f = f.name);
+        let code = format!("{{ let id = {a}.{f}().id(); CLONE_BOMB.with(|b| *b.borrow_mut() = Some((\"{t}\", id))); let res = std::panic::catch_unwind(std::panic::AssertUnwindSafe(|| {{ let c = {a}.clone(); c }})); CLONE_BOMB.with(|b| *b.borrow_mut() = None); match res {{ Ok(c) => {{ mute(true); drop(c); mute(false); flush(out, \"no-panic\".into()); }} Err(_) => flush(out, \"panic\".into()) }} }}", a = self.acc(r), f = f.name, t = f.ty);
         self.op(&format!("clonebomb {} {}", r.n, fi), &code);
     }
     fn de_bad(&mut self, r: &Reg) {
